@@ -24,4 +24,5 @@ PY
   git -C /repo worktree remove --force /tmp/seed$SUF-$id 2>/dev/null
 done
 git -C /repo worktree prune
+[ -n "${SKIP_SENS:-}" ] && exit 0
 [ ${#confirmed[@]} -gt 0 ] && nice tools/sensitivity.sh "${confirmed[@]}"
